@@ -16,7 +16,9 @@ PROPS = {
         'bounds': 'loop-free: every value of every symbolic input (operands, 16-bit flag word, 14 registers, 1 MiB memory, probe address)',
         'outside': 'the LALRPOP parser driver / lexer (which production fires for which text) is validated by native '
                    'runs of the real parser on rendered instructions, not by the solver',
-        'assumptions': [],
+        'backends': [(r'^c01_', ['z3', 'cvc5', 'sat-arrays']), (r'_(rr|ri)(8|16)$', ['sat', ('cvc5', 'z3')]), (r'.*', [('cvc5', 'z3'), 'sat-arrays'])],
+        'timeout': {'quick': 600, 'thorough': 1800},
+        'assumptions': ['B-harnesses take the physical address of a memory operand as an arbitrary symbolic value (that it is the right address is C04)'],
         'level_text': 'bounded model checking with no bound needed (loop-free): CBMC decides every labelled obligation '
                       '(result, each of the six flags, other flag bits, registers, a symbolic memory probe cell) for all '
                       'operand values, flag words, registers and memory contents; stronger than sampling because the '
